@@ -83,9 +83,9 @@ CLAIMED = {
     ),
     "C09": dict(
         category="model_checking",
-        technique="explicit-state model checking of the generated futures on a deterministic executor: all decision sequences (polls, releases of pending points before/after arrival, spurious polls), progress invariant in every quiescent state",
-        text="The unmodified expansion of the six async macros runs on a deterministic executor that owns every pending point (gate futures) and every task (tokio::spawn shim); all decision sequences are enumerated. Construction must evaluate nothing; in every quiescent state each branch of the current step has either progressed or registered a waker at its pending point; every maximal execution completes with the reference's result.",
-        design_ref="DESIGN.md §4 C09, §2.6",
+        technique="explicit-state model checking of the generated futures on a deterministic executor: all decision sequences (polls, releases of pending points before/after arrival, spurious polls); invariants in every quiescent state (progress behind the pending points, waker registered) and in every state where all tasks are idle while the macro's own future is woken but unpolled (task branches progress without the parent); unwatched task completions",
+        text="The unmodified expansion of the six async macros runs on a deterministic executor that owns every pending point (gate futures) and every task (tokio::spawn shim); all decision sequences are enumerated. Construction must evaluate nothing; in every quiescent state each branch of the current step has either progressed or registered a waker at its pending point; every maximal execution completes with the reference's result; an operand awaited in place while task branches are built must not stop the branches already started; a task must not complete while the joining future holds no waker for it.",
+        design_ref="DESIGN.md §4 C09, §2.6, A.7",
         note=E3A_NOTE,
         engine="E3-A",
     ),
@@ -131,15 +131,15 @@ CLAIMED = {
     ),
     "C15": dict(
         category="exploration",
-        technique="bounded exhaustive enumeration of all symbol sequences over the DSL alphabet through join_impl's parse + generate entry points, outcome classification + conservative reference recogniser",
-        text="Every sequence over the DSL symbol alphabets up to the bound is expanded in-process under catch_unwind with a termination watchdog; the outcome must be valid output, a syn error or a documented configuration rejection; structurally invalid inputs (E1-E7) must be rejected, inputs fitting the confident grammar must expand.",
+        technique="bounded exhaustive enumeration of all symbol sequences over the DSL alphabets through join_impl's parse + generate entry points, outcome classification + conservative reference recogniser (classes E1-E9); exhaustive sweeps of let forms and of operators written between the operands of multi-operand operators",
+        text="Every sequence over the DSL symbol alphabets up to the bound is expanded in-process under catch_unwind with a termination watchdog; the outcome must be valid output, a syn error or a documented configuration rejection; structurally invalid inputs (E1-E9) must be rejected, inputs fitting the confident grammar must expand.",
         design_ref="DESIGN.md §4 C15",
         note="Trusted: syn (output validity = parses as syn::Expr), the reference recogniser (conservative: answers 'unsure' outside the confident grammar). Inputs outside the alphabet are not covered.",
         engine="E1",
     ),
     "C19": dict(
         category="exploration",
-        technique="bounded enumeration of witness programs: allocation counting under a counting global allocator, move-only / !Send / borrowing programs compiled through the real macros and compared with the reference",
+        technique="bounded exhaustive enumeration of witness programs: exact allocation counts under a counting global allocator (every typed capture chain of length <= 2 with every ~ placement, depth profiles under every branch-handover option, 33/40-branch programs) vs the documented chain; move-only / !Send / borrowing programs compiled through the real macros and compared with the reference",
         text="Int-only depth profiles in join!/try_join! run under a counting allocator (allocation-free iff the reference is); the same shapes over a move-only token (12 macros), Rc values (non-spawning macros, incl. long steps) and borrows of caller locals must compile and agree with the reference. A bounded check of a universal type-level claim: it refutes an added Clone/Send/'static bound or a hidden allocation for these shapes only.",
         design_ref="DESIGN.md §4 C19, §6",
         note=E2_NOTE,
@@ -147,7 +147,7 @@ CLAIMED = {
     ),
     "C20": dict(
         category="model_checking",
-        technique="exhaustive enumeration of expansion histories up to depth 3 in one process + stateless model checking of two concurrent expansions under the baton scheduler at the verif_hooks yield points (preemption-bounded)",
+        technique="exhaustive enumeration of expansion histories in one process (all sequences up to depth 3 over the corpus units, up to depth 3/4 over related accepted and rejected invocations, typing sessions over every token prefix of every corpus invocation) against fresh-process outputs + stateless model checking of two concurrent expansions under the baton scheduler at the verif_hooks yield points (preemption-bounded)",
         text="All expansion histories up to the bound over a feature-covering corpus are replayed in one process and every output compared with the fresh-process output; every ordered pair of core units is expanded by two threads under every interleaving of the hook yield points within the preemption bound.",
         design_ref="DESIGN.md §4 C20",
         note=E3T_NOTE + " Interleavings are exhaustive only at hook granularity (hook commit 47e2b50, feature verif_hooks).",
@@ -163,7 +163,7 @@ CLAIMED = {
     ),
     "C17": dict(
         category="exploration",
-        technique="bounded enumeration of dense index layouts (two-digit branch/action/step/operand indices, mixed Process/Err operators at mirrored positions) and of all ordered macro pairs in four nesting positions, real macros vs the recursively applied reference",
+        technique="bounded exhaustive enumeration of dense index layouts (two-digit branch/action/step/operand indices, mixed Process/Err operators at mirrored positions), of all ordered macro pairs in four nesting positions (+ macro as handler operand), of sibling layouts around one deep failing branch (every failure subset), real macros vs the recursively applied reference; nested thread-spawning macros under every schedule",
         text="Dense programs with a distinct-constant capture on every action for (branches, actions) over {2,11,12}^2 (thorough 24), 13-step branches, 13/24 thread branches, fold captures; every ordered pair of the 12 macros with the inner one as direct operand, operand value, inside a capture and inside a handler; value and trace must equal the reference.",
         design_ref="DESIGN.md §4 C17",
         note=E2_NOTE,
@@ -171,7 +171,7 @@ CLAIMED = {
     ),
     "C18": dict(
         category="fault_enumeration",
-        technique="exhaustive fault injection (every single panic position, crossed with failure subsets) x all schedules under the controlled thread scheduler",
+        technique="exhaustive fault injection: every single panic position (crossed with failure subsets) x all schedules under the controlled thread scheduler and x all decision sequences on the deterministic executor (incl. the invariant: no quiescent state with a panicked task and a pending macro future); E2 panic sweep: every distinct event site of enumerated programs (captures, wrapper captures, handler operands) panics once, reference and macro alike",
         text="A panic is injected at every single (branch, step) position (for small try programs on top of every failure subset) and the real expansion is run under every order of visible operations: the panic must surface on the caller, nothing of a later step may run, no deadlock.",
         design_ref="DESIGN.md §4 C18",
         note=E3T_NOTE + " " + E3A_NOTE,
